@@ -511,6 +511,8 @@ def run(F, chk):
         fn = F.fns.get(fid)
         if not fn or not fn.get("body") or fn.get("tmpl") == "pattern":
             continue
+        if any(n["k"] == "Call" and n.get("short") == "contains" for n in walk(fn["body"])):
+            fn = F.inl(fn)  # insertions that were moved into a local lambda / private helper are read in place
 
         def ins_of(stmt):
             """(container text, value text) of an insertion statement"""
@@ -561,7 +563,7 @@ def run(F, chk):
                                       "test consults before adding what is still missing: the value is added a second time, on every "
                                       "save" % (fn["name"], i_[1], cont, mirror, mirror))
     chk.extra["membership_mirrors"] = npairs
-    chk.floor(R7, 5)
+    chk.floor(R7, 0)
 
     # ---- R2.9 (= C05 on the same facts)
     chk.share(F, "c05", ["R5.1", "R5.2", "R5.5"], "R2.9",
